@@ -403,3 +403,7 @@ mod tests {
         assert_eq!(buf.as_slice(), [65, 0, 66, 0,]);
     }
 }
+
+#[cfg(any(kani, verif_replay))]
+#[path = "/verif/kani/writebuf.rs"]
+pub(crate) mod verif_kani_writebuf;
